@@ -146,6 +146,14 @@ class FieldType:
         return data
 
 
+def _hashable(value):
+    if isinstance(value, (list, tuple)):
+        return tuple(_hashable(v) for v in value)
+    if isinstance(value, dict):
+        return tuple((k, _hashable(v)) for k, v in value.items())
+    return value
+
+
 class Record:
     __slots__ = ()
 
@@ -202,27 +210,9 @@ class Record:
         return result
 
     def __hash__(self) -> int:
-        desc_identifier, values = self._pack(excluded_fields=IGNORE_FIELDS_FOR_COMPARISON)
-        if not any((isinstance(value, list) for value in values)):
-            return hash((desc_identifier, values))
-
-        # Lists have to be converted to tuples to be able to hash them
-        record_values = []
-        for value in values:
-            if not isinstance(value, list):
-                record_values.append(value)
-                continue
-            list_values = []
-            for list_value in value:
-                if isinstance(list_value, dict):
-                    # List values that are dicts must be converted to tuples
-                    dict_as_tuple = tuple(list_value.items())
-                    list_values.append(dict_as_tuple)
-                else:
-                    list_values.append(list_value)
-            record_values.append(tuple(list_values))
-
-        return hash((desc_identifier, tuple(record_values)))
+        # Lists and dicts (at any depth, e.g. the argument list of a command or the members of a
+        # grouped record) have to be converted to tuples to be able to hash them
+        return hash(_hashable(self._pack(excluded_fields=IGNORE_FIELDS_FOR_COMPARISON)))
 
     def __repr__(self):
         return "<{} {}>".format(
@@ -308,10 +298,10 @@ class GroupedRecord(Record):
             return getattr(x, attr)
         raise AttributeError(attr)
 
-    def _pack(self):
+    def _pack(self, unversioned=False, excluded_fields: list = None):
         return (
             self.name,
-            tuple(record._pack() for record in self.records),
+            tuple(record._pack(unversioned=unversioned, excluded_fields=excluded_fields) for record in self.records),
         )
 
     def _replace(self, **kwds):
